@@ -68,12 +68,15 @@ int yara_yyparse(void* yyscanner)
 int yr_execute_code(YR_SCAN_CONTEXT* context)
 {
   YR_VALUE r1, r2;
+  struct { int sp; YR_VALUE items[8]; } stack;
+#define pop(x) x = stack.items[--stack.sp]
   int opcode;
   switch (opcode)
   {
-  case OP_BITWISE_XOR: r1.i = r1.i ^ r2.i; break;
-  case OP_BITWISE_OR: r1.i = r1.i | r2.i; break;
+  case OP_BITWISE_XOR: pop(r2); pop(r1); r1.i = r1.i ^ r2.i; break;
+  case OP_BITWISE_OR: pop(r2); pop(r1); r1.i = r1.i | r2.i; break;
   case OP_INT_DIV:
+    pop(r2); pop(r1);
     if (r2.i == 0 || (r1.i == INT64_MIN && r2.i == -1))
       r1.i = YR_UNDEFINED;
     else
